@@ -156,13 +156,25 @@ func runC07(sc *c07Scenario) *Violation {
 		mu.Lock()
 		deliveries = append(deliveries, c07Delivery{cy, n})
 		mu.Unlock()
-		if sc.HandlerAsks {
+		ask := func() {
+			// every query an application's handler may make of its client: none of them may wait for a
+			// teardown that is itself waiting for this handler
 			_ = c.Connected()
 			_ = c.Me()
 			_ = c.String()
+			_ = c.StateTracker()
+			_ = c.Config().Server
+			_ = c.SupportsCapability("sasl")
+			_ = c.HasCapability("sasl")
+		}
+		if sc.HandlerAsks {
+			ask()
 		}
 		if sc.HandlerSlowUS > 0 {
 			time.Sleep(time.Duration(sc.HandlerSlowUS) * time.Microsecond)
+		}
+		if sc.HandlerAsks {
+			ask()
 		}
 		for i := 0; i < sc.HandlerEmits; i++ {
 			c.Raw(fmt.Sprintf("EMIT %d.%d.%d", cy, n, i))
